@@ -5,6 +5,7 @@
 package main
 
 import (
+	"encoding/json"
 	"flag"
 	"fmt"
 	"os"
@@ -33,6 +34,19 @@ func main() {
 		os.Exit(check(os.Args[2:]))
 	case "mutate":
 		os.Exit(mutate(os.Args[2:]))
+	case "anchors":
+		// regenerate core/anchors_ref.json from the tree: hcsa anchors [repo] > core/anchors_ref.json
+		repo := "/repo"
+		if len(os.Args) > 2 {
+			repo = os.Args[2]
+		}
+		prog, err := core.Load(core.Config{Dir: repo})
+		if err != nil {
+			fmt.Fprintln(os.Stderr, err)
+			os.Exit(2)
+		}
+		b, _ := json.MarshalIndent(prog.AnchorsOf(), "", " ")
+		os.Stdout.Write(b)
 	case "ssa":
 		// debug: hcsa ssa <pkg-rel> <func> [repo]
 		repo := "/repo"
